@@ -19,7 +19,7 @@ var c13Blocking = map[string]bool{"blpop": true, "brpop": true, "blmove": true, 
 // commands that legitimately end or redirect the victim connection, or act on other clients
 var c13Skip = map[string]bool{"quit": true, "client": true}
 
-var c13Args = []string{"", "0", "1", "-1", "2", "10", "ka", "kl", "kh", "ks", "kmissing", "a", "b", "f1",
+var c13Args = []string{"", "0", "1", "-1", "2", "10", "ka", "kl", "kh", "ks", "kmissing", "ke", "kz", "a", "b", "f1",
 	"9223372036854775807", "-9223372036854775808", "9223372036854775808", "2147483648", "4294967296", "4294967297",
 	"4000000000000000000", "-4000000000000000000", "1e308", "nan", "inf", "-inf", "3.5", "abc", "\r\n", "\x00",
 	"NX", "XX", "GET", "EX", "PX", "COUNT", "MATCH", "LIMIT", "LEFT", "RIGHT", "BEFORE", "WITHVALUES", "BY", "STORE", "ALPHA", "DESC",
@@ -44,6 +44,8 @@ var c13Templates = [][]string{
 	{"lcs", "kbig1", "kbig2"}, {"lcs", "kbig1", "kbig2", "IDX"}, {"lcs", "kbig1", "kbig1", "LEN"}, {"lcs", "kbig2", "K", "IDX", "WITHMATCHLEN"},
 	{"sort", "K", "BY", "P"}, {"sort", "K", "BY", "w_*", "GET", "P", "GET", "#"}, {"sort", "K", "BY", "h_*->f", "LIMIT", "I", "I", "GET", "h_*->"}, {"sort", "K", "GET"},
 	{"sort", "K", "ALPHA", "LIMIT", "I", "I", "STORE", "K"}, {"sort", "K", "BY", "nosort", "GET", "*->", "STORE", "K"}, {"sort", "kbig1", "ALPHA"},
+	{"bitcount", "K"}, {"bitcount", "K", "I", "I", "BIT"}, {"bitpos", "K", "0"}, {"bitpos", "K", "1", "I"}, {"getrange", "K", "I", "I"}, {"lcs", "K", "K", "IDX"}, {"bitop", "AND", "K", "K", "K"},
+	{"setrange", "K", "I", ""}, {"append", "K", ""}, {"bitfield", "K", "GET", "u8", "I"}, {"getbit", "K", "I"}, {"strlen", "K"}, {"substr", "K", "I", "I"}, {"incr", "K"}, {"decrby", "K", "I"},
 	{"dump", "K"}, {"rename", "K", "K"}, {"smove", "K", "K", "a"}, {"lmove", "K", "K", "LEFT", "LEFT"}, {"sinterstore", "K", "K", "K"}, {"msetnx", "K", "v", "K", "v"}, {"getdel", "K"},
 }
 
@@ -63,7 +65,7 @@ func c13Big(which int) string {
 }
 
 func c13Fill(g *rand.Rand, t []string) []string {
-	keys := []string{"ka", "kl", "kh", "ks", "kmissing"}
+	keys := []string{"ka", "kl", "kh", "ks", "kmissing", "ke", "ke", "kz", "kn", "k1", "kx"}
 	out := make([]string, len(t))
 	for i, a := range t {
 		switch a {
@@ -98,6 +100,7 @@ type c13Runner struct {
 	victim   *Conn
 	by       *Conn
 	restarts int
+	slow     int // replies that took longer than 1.5 s (and arrived within the bound)
 }
 
 func (r *c13Runner) setup() error {
@@ -127,7 +130,8 @@ func (r *c13Runner) newVictim() error {
 func (r *c13Runner) seedState() error {
 	c := r.by
 	for _, cmd := range [][]string{{"FLUSHALL"}, {"SET", "ka", "hello"}, {"RPUSH", "kl", "a", "b", "c"}, {"HSET", "kh", "f1", "1", "f2", "x"}, {"SADD", "ks", "a", "b", "c"},
-		{"SET", "kbig1", c13Big(1)}, {"SET", "kbig2", c13Big(2)}, {"SET", "w_a", "1"}, {"HSET", "h_a", "f", "1"}} {
+		{"SET", "kbig1", c13Big(1)}, {"SET", "kbig2", c13Big(2)}, {"SET", "w_a", "1"}, {"HSET", "h_a", "f", "1"},
+		{"SET", "ke", ""}, {"SET", "kz", "\x00"}, {"SET", "kn", "-9223372036854775808"}, {"SADD", "k1", "only"}, {"SET", "kx", "gone"}, {"PEXPIRE", "kx", "1"}} {
 		if _, err := c.Do(3*time.Second, bs(cmd...)...); err != nil {
 			return err
 		}
@@ -190,6 +194,17 @@ func (r *c13Runner) run(cs c13Case) (string, error) {
 		if w := died(fmt.Sprintf("command %q", args), err != nil); w != "" {
 			return w, nil
 		}
+		if err != nil && !c13Blocking[name] {
+			// a command may legitimately work on half a gigabyte (SETBIT k 4294967295 1 allocates and copies
+			// 512 MB): the bound for a reply is 12 s, replies slower than 1.5 s are counted
+			if _, err2 := r.victim.Read(10500 * time.Millisecond); err2 == nil {
+				r.slow++
+				err = nil
+			}
+			if w := died(fmt.Sprintf("command %q", args), err != nil); w != "" {
+				return w, nil
+			}
+		}
 		if err != nil {
 			if c13Blocking[name] {
 				// a blocking command may legitimately wait; the connection is abandoned
@@ -197,7 +212,7 @@ func (r *c13Runner) run(cs c13Case) (string, error) {
 					return "", err
 				}
 			} else {
-				w := fmt.Sprintf("well-formed command %q got no single well-formed reply within 1.5 s: %v", args, err)
+				w := fmt.Sprintf("well-formed command %q got no single well-formed reply within 12 s: %v", args, err)
 				r.newVictim()
 				if b := r.bystander(); b != "" {
 					w += "; and " + b
@@ -308,7 +323,7 @@ func runC13(cfg runCfg, res *Result) error {
 		} else if i < cmds {
 			name := names[g.Intn(len(names))]
 			args := []string{name}
-			keysPool := []string{"ka", "kl", "kh", "ks", "kmissing"}
+			keysPool := []string{"ka", "kl", "kh", "ks", "kmissing", "ke", "kz", "kn", "k1", "kx"}
 			numPool := []string{"0", "1", "-1", "2", "5", "9223372036854775807", "-9223372036854775808", "9223372036854775808",
 				"2147483648", "4294967296", "4000000000000000000", "-4000000000000000000", "1e308", "nan", "inf", "3.5", "", "abc"}
 			for j := 0; j < g.Intn(7); j++ {
@@ -368,6 +383,7 @@ func runC13(cfg runCfg, res *Result) error {
 	}
 	res.Distinct = res.Histories
 	res.Extra["server_restarts"] = r.restarts - 1
+	res.Extra["slow_replies_over_1500ms"] = r.slow
 	res.Extra["command_names"] = len(names)
 	return nil
 }
